@@ -110,7 +110,7 @@ pub fn profile(prop: Prop, thorough: bool) -> Profile {
         probe_budget: 6,
     };
     match prop {
-        Prop::C01 => Profile { mixed_markers: true, ..base },
+        Prop::C01 => Profile { mixed_markers: true, legacy: 100, ..base },
         Prop::C02 => Profile {
             kinds: [22, 24, 34, 1, 1, 1, 1, 4, 5, 8, 2],
             fault: 60,
@@ -125,6 +125,7 @@ pub fn profile(prop: Prop, thorough: bool) -> Profile {
             kinds: [20, 20, 18, 6, 6, 5, 5, 10, 10, 8, 2],
             fault: 120,
             fees: 800,
+            legacy: 100,
             ..base
         },
         Prop::C05 => Profile {
@@ -163,6 +164,7 @@ pub fn profile(prop: Prop, thorough: bool) -> Profile {
             fault: 40,
             tie_seeking: true,
             non_lot: 500,
+            legacy: 150,
             ..base
         },
         Prop::C10 => Profile { mixed_markers: true, convertible: 800, fault: 80, ..base },
@@ -189,6 +191,7 @@ pub fn profile(prop: Prop, thorough: bool) -> Profile {
         Prop::C16 => Profile { legacy: 300, ..base },
         Prop::C17 => Profile {
             kinds: [20, 20, 24, 4, 5, 4, 5, 8, 8, 8, 2],
+            legacy: 100,
             fault: 60,
             ..base
         },
@@ -500,13 +503,20 @@ impl<'a> Interp<'a> {
             if !admissible {
                 continue;
             }
+            let shape = (ww >> 1) & 3;
             if ww & 1 == 0 {
+                // a plain ask, or (when the market has a convertible denomination) a pending one
+                let (base, class) = if shape == 3 && !cfg.convertibles.is_empty() && cfg.convertibles[0] != cfg.base {
+                    (cfg.convertibles[0].clone(), AskClass::Pending)
+                } else {
+                    (cfg.base.clone(), AskClass::Basic)
+                };
                 out.push(Step::SeedAsk {
                     ask: Ask {
                         id: legacy_uuid_of(i as u64),
                         owner,
-                        class: AskClass::Basic,
-                        base: cfg.base.clone(),
+                        class,
+                        base,
                         quote,
                         price,
                         size,
@@ -515,15 +525,20 @@ impl<'a> Interp<'a> {
             } else if let Parsed::Num(p) = parse(&price) {
                 if let Some(total) = p.mul_u128(size).as_u128() {
                     let fee = cfg.bid_fee.as_ref().and_then(|f| exact_fee(&f.1, total)).unwrap_or(0);
+                    // fresh, or carried over partly filled (whole lots at its own price, fee pro rata)
+                    let lots = size / cfg.increment.max(1);
+                    let filled = if shape >= 2 && lots >= 2 { ((ww as u128 >> 8) % (lots - 1) + 1) * cfg.increment } else { 0 };
+                    let acc_quote = p.mul_u128(filled).as_u128().unwrap_or(0);
+                    let acc_fee = if fee > 0 && total > 0 { fee - prorata(fee, total - acc_quote, total).rounded } else { 0 };
                     out.push(Step::SeedBid {
                         bid: Bid {
                             id: legacy_uuid_of(100 + i as u64),
                             owner,
                             base_denom: cfg.base.clone(),
                             size,
-                            acc_base: 0,
-                            acc_quote: 0,
-                            acc_fee: 0,
+                            acc_base: filled,
+                            acc_quote,
+                            acc_fee,
                             fee: if fee > 0 { Some((quote.clone(), fee)) } else { None },
                             price,
                             quote_denom: quote,
